@@ -1,0 +1,17 @@
+//go:build verif
+
+package config
+
+// Contracts for govc (see /verif/DESIGN.md). Comment-only file: contributes no code.
+
+//@ func (c *BaseProxyConfig) GetProxyPrefix
+//@   property C01
+//@   ensures true
+
+//@ func (c *BaseProxyConfig) GetResponseTimeout
+//@   property C01
+//@   ensures true
+
+//@ func (c *BaseProxyConfig) GetReadTimeout
+//@   property C01
+//@   ensures true
